@@ -182,7 +182,8 @@ func (p *Prog) dependsOnD(v ssa.Value, src func(ssa.Value) bool, depth int, seen
 						return true
 					}
 				}
-				return false
+				// a local aggregate filled field by field (a composite literal): what was stored into its fields/elements
+				return rec(al)
 			}
 			if fa, ok := x.X.(*ssa.FieldAddr); ok {
 				// field of a local struct cell: the stores into that field
